@@ -49,10 +49,10 @@ func csData(recs ...ref.CSRecord) []byte {
 }
 
 var (
-	csRec3  = ref.CSRecord{ID: 3, Auth: 1, Integs: []byte{1}, Confs: []byte{1}}
-	csRec17 = ref.CSRecord{ID: 17, Auth: 3, Integs: []byte{4}, Confs: []byte{1}}
-	csRec8  = ref.CSRecord{ID: 8, Auth: 2, Integs: []byte{2}, Confs: []byte{1}}
-	csRec1  = ref.CSRecord{ID: 1, Auth: 1}
+	csRec3   = ref.CSRecord{ID: 3, Auth: 1, Integs: []byte{1}, Confs: []byte{1}}
+	csRec17  = ref.CSRecord{ID: 17, Auth: 3, Integs: []byte{4}, Confs: []byte{1}}
+	csRec8   = ref.CSRecord{ID: 8, Auth: 2, Integs: []byte{2}, Confs: []byte{1}}
+	csRec1   = ref.CSRecord{ID: 1, Auth: 1}
 	csRecOEM = ref.CSRecord{ID: 0x80, OEM: true, IANA: 0x0002A2, Auth: 1, Integs: []byte{1}, Confs: []byte{1, 2}}
 )
 
